@@ -247,11 +247,14 @@ pub fn call(h: &mut H, op: &str, args: Vec<Value>, inject: Vec<(String, Integer)
         .map(|(_, v)| (*v < 0, v.clone().abs().to_digits::<u8>(rug::integer::Order::MsfBe)))
         .collect();
     verif_hooks::start_signed(inj);
+    let inj_json: Vec<Value> = inject.iter().map(|(k, v)| json!([k, val_of(v)])).collect();
+    crate::watch_begin(json!({"suite": suite, "op": op, "args": args, "tape": inj_json, "id": h.next_id}).to_string());
     let r = catch_unwind(AssertUnwindSafe(|| match suite {
         "cl1024" => exec::<CL1024Sha256>(op, &args),
         "cl2048" => exec::<CL2048Sha256>(op, &args),
         _ => exec::<CL3072Sha256>(op, &args),
     }));
+    crate::watch_end();
     let draws_raw = verif_hooks::stop();
     let draws: Vec<(String, Integer)> = draws_raw
         .iter()
